@@ -6,6 +6,7 @@ import (
 	"fmt"
 	"os"
 	"runtime/debug"
+	"strconv"
 	"sync/atomic"
 	"syscall"
 	"time"
@@ -20,7 +21,7 @@ type ReplayFile struct {
 	VerifSeed uint64            `json:"verif_seed"`
 	Run       uint64            `json:"run"`
 	Thorough  bool              `json:"thorough"`
-	Trace     []uint64          `json:"trace"` // nil => generate from (verif_seed, run)
+	Trace     []uint64          `json:"trace"`                       // nil => generate from (verif_seed, run)
 	Explicit  json.RawMessage   `json:"explicit_scenario,omitempty"` // if set: executed directly, no generator involved
 	Skip      []string          `json:"skip,omitempty"`
 	Race      bool              `json:"race_build,omitempty"` // found by (and to be replayed with) the -race build
@@ -30,17 +31,17 @@ type ReplayFile struct {
 }
 
 type workerResult struct {
-	Worker      int                 `json:"worker"`
-	Stats       *simkit.Stats       `json:"stats"`
-	Distinct    []uint64            `json:"distinct"`
-	States      []uint64            `json:"states"`
-	Violations  []workerViolation   `json:"violations"`
-	RunsDone    int64               `json:"runs_done"`
-	CapHit      bool                `json:"cap_hit"`
-	Rechecked   int                 `json:"rechecked"`
-	Mismatches  int                 `json:"mismatches"`
-	MismatchRun int64               `json:"mismatch_run"`
-	Digests     map[string]uint64   `json:"digests,omitempty"` // run -> digest (selftest)
+	Worker      int               `json:"worker"`
+	Stats       *simkit.Stats     `json:"stats"`
+	Distinct    []uint64          `json:"distinct"`
+	States      []uint64          `json:"states"`
+	Violations  []workerViolation `json:"violations"`
+	RunsDone    int64             `json:"runs_done"`
+	CapHit      bool              `json:"cap_hit"`
+	Rechecked   int               `json:"rechecked"`
+	Mismatches  int               `json:"mismatches"`
+	MismatchRun int64             `json:"mismatch_run"`
+	Digests     map[string]uint64 `json:"digests,omitempty"` // run -> digest (selftest)
 }
 
 type workerViolation struct {
@@ -70,8 +71,11 @@ func openProgress(path string) (*progress, error) {
 }
 
 func (p *progress) word(i int) *uint64 { return (*uint64)(unsafe.Pointer(&p.mem[8*i])) }
-func (p *progress) setRun(run uint64)  { atomic.StoreUint64(p.word(0), run+1); atomic.AddUint64(p.word(1), 1) }
-func (p *progress) beat()              { atomic.AddUint64(p.word(1), 1) }
+func (p *progress) setRun(run uint64) {
+	atomic.StoreUint64(p.word(0), run+1)
+	atomic.AddUint64(p.word(1), 1)
+}
+func (p *progress) beat() { atomic.AddUint64(p.word(1), 1) }
 
 func readProgress(path string) (run int64, ok bool) {
 	b, err := os.ReadFile(path)
@@ -85,7 +89,14 @@ func readProgress(path string) (run int64, ok bool) {
 	return int64(v - 1), true
 }
 
-const hangSeconds = 15
+var hangSeconds = func() time.Duration {
+	if s := os.Getenv("VERIF_HANG_S"); s != "" {
+		if n, err := strconv.Atoi(s); err == nil && n > 0 {
+			return time.Duration(n)
+		}
+	}
+	return 15
+}()
 
 // startWatchdog exits the process with status 3 when the heartbeat has not
 // moved for hangSeconds. Wall time is used only here, as a backstop for spins
@@ -277,7 +288,7 @@ func writeJSON(path string, v interface{}) error {
 
 // replayMain re-executes one replay file in this process. Exit 1 (and the
 // violation on stdout) if the violation reproduces, 0 if the run is clean.
-func replayMain(path, progressPath string) int {
+func replayMain(path, progressPath, traceOut string) int {
 	b, err := os.ReadFile(path)
 	if err != nil {
 		fmt.Fprintln(os.Stderr, err)
@@ -326,6 +337,13 @@ func replayMain(path, progressPath string) int {
 		c = simkit.ReplayChoices(rf.Trace)
 	}
 	c.Limit = traceLimit
+	if traceOut != "" {
+		// every draw is written at once, so that the trace survives a
+		// process-level failure of this run
+		if f, err := os.Create(traceOut); err == nil {
+			c.Sink = f
+		}
+	}
 	st := simkit.NewStats()
 	x := &simkit.Ctx{Stats: st, Thorough: rf.Thorough, Skip: skipMap(rf.Skip)}
 	v := cfg.Engine.Run(c, x)
